@@ -467,6 +467,16 @@ func Sweep[C any](t *testing.T, p P, enum func(emit func(C)), check func(C, *Rec
 		}
 		r, err := runCheck(c, check)
 		if err != nil {
+			if keepGoing {
+				// development aid: list every distinct failure site instead of stopping
+				sig := firstRepoFrame(err.Error())
+				if !seenFail[sig] {
+					seenFail[sig] = true
+					writeRecord(violationPath(fmt.Sprintf("%s-%d", p.Name, len(seenFail))), test, p.Name, c, err.Error())
+					t.Errorf("%s: case %d: [%s] %s", p.Name, i, sig, trunc(err.Error(), 300))
+				}
+				return
+			}
 			failed = true
 			writeRecord(violationPath(p.Name), test, p.Name, c, err.Error())
 			t.Errorf("%s: case %d: %v", p.Name, i, err)
@@ -532,4 +542,33 @@ func WriteFragment() {
 	sort.Strings(names)
 	out, _ := json.MarshalIndent(f, "", " ")
 	os.WriteFile(filepath.Join(OutDir, "fragment.json"), out, 0o644)
+}
+
+// Violation records a violation found outside a check function (e.g. by a
+// watchdog goroutine) so that the driver reports it with c as the replay case.
+func Violation(test, name string, c any, errText string) {
+	writeRecord(violationPath(name), test, name, c, errText)
+}
+
+var (
+	keepGoing = os.Getenv("VERIF_KEEPGOING") != ""
+	seenFail  = map[string]bool{}
+)
+
+// firstRepoFrame extracts the first stack line that points into the library
+// under test, to group failures by site.
+func firstRepoFrame(s string) string {
+	for _, l := range strings.Split(s, "\n") {
+		l = strings.TrimSpace(l)
+		if (strings.HasPrefix(l, "/repo/") || strings.Contains(l, "/gmsm/")) && strings.Contains(l, ".go:") && !strings.Contains(l, "/verif/harness/") {
+			if i := strings.Index(l, " +0x"); i > 0 {
+				l = l[:i]
+			}
+			return l
+		}
+	}
+	if i := strings.Index(s, "\n"); i > 0 {
+		return s[:i]
+	}
+	return s
 }
